@@ -51,7 +51,7 @@ def check(ctx):
             c = D.cmp_of_switch(body, dg, x)
             iter_end = bool(vs) and C01._mentions(vs[0], lambda e: e[0] == "call" and e[1].endswith("::next")) and vs[1].get(0, vs[2]) == y
             sentinel = bool(c) and (any(strip_casts(z) in (("gconst", "u32::MAX"), ("const", 0xFFFFFFFF)) for z in (c[1], c[2])))
-            if not (iter_end or sentinel): good = False; why = f"exit bb{x}->bb{y} at {body.loc(x)} is neither the end of the listener list nor its sentinel"
+            if not (iter_end or sentinel or util.counter_bound_exit(body, dg, x, y)): good = False; why = f"exit bb{x}->bb{y} at {body.loc(x)} is neither the end of the listener list nor its sentinel"
         ctx.ob("R03.1", f"{k}|loop-ends-only-at-end-of-list", good and bool(exits), body.loc(h), "the fan-out loop is left only at the end of the live-listener list" if good else why)
         rets = [b for b in body.returns]
         ctx.ob("R03.1", f"{k}|no-return-inside-the-loop", not any(r in body.loops[h] for r in rets), site, "no return from inside the fan-out loop")
